@@ -129,7 +129,10 @@ class Url:
         split_at = raw.split(AT, 1)
         username, password = None, None
         if len(split_at) == 2:
-            username, password = split_at[0].split(COLON)
+            # userinfo = user [ ":" password ]
+            userinfo = split_at[0].split(COLON, 1)
+            username = userinfo[0]
+            password = userinfo[1] if len(userinfo) == 2 else None
         parts = split_at[-1].split(COLON, 2)
         num_parts = len(parts)
         port: Optional[int] = None
